@@ -109,6 +109,10 @@ pub struct LayoutPlan {
     /// exact number of FAT sectors (0 = off; ignored when fewer than the content needs): lets a
     /// case put the DIFAT exactly at a boundary (109 + 127k entries in version 3)
     pub total_fat_sectors: u32,
+    /// DIFAT sectors beyond what the FAT sectors need, chained in behind the needed ones and
+    /// holding FREESECT entries only (spare capacity another writer may reserve); counted in
+    /// the header, marked DIFSECT in the FAT
+    pub spare_difat_sectors: u32,
     /// false: balanced trees; true: per storage balanced or insertion-built
     pub library_like_trees: bool,
 }
@@ -142,6 +146,7 @@ pub fn plan_from_seed(seed: u64, version: u16) -> LayoutPlan {
         min_fat_sectors: 0,
         extra_fat_sectors: 0,
         total_fat_sectors: 0,
+        spare_difat_sectors: 0,
         library_like_trees,
     }
 }
@@ -658,7 +663,14 @@ pub fn write_image(content: &Dump, plan: &LayoutPlan) -> Result<Vec<u8>, String>
         n_difat = difat_for(n_fat);
     }
     let n_fat = n_fat as usize;
-    let n_difat = n_difat as usize;
+    let mut n_difat = n_difat as usize;
+    if plan.spare_difat_sectors > 0 {
+        let spare = plan.spare_difat_sectors as usize;
+        if n_fat + n_difat + spare + base_used + n_free > n_fat * cells_per_sector {
+            return Err("no room in the FAT for the spare DIFAT sectors".to_string());
+        }
+        n_difat += spare;
+    }
     let n_used = n_fat + n_difat + base_used;
     let n_sectors = n_used + n_free;
     if n_sectors as u64 > MAXREGSECT as u64 {
